@@ -31,6 +31,10 @@ pub struct Cfg {
     /// hands the signal out in pieces of these sizes, cyclically (as an audio
     /// or SDR source does).
     pub pieces: Vec<usize>,
+    /// Make the k-th stream of the chain (in construction order) small (16
+    /// pages), all others the default 4 MB: back pressure at one point of the
+    /// chain.
+    pub small: Option<usize>,
 }
 
 /// Source handing out a fixed signal in pieces of given sizes.
@@ -79,7 +83,7 @@ impl Cfg {
     fn to_json(&self) -> Value {
         json!({"baud": self.baud, "rate": self.rate, "family": self.family, "len": self.len, "frames": self.frames,
             "between": self.between, "preamble": self.preamble, "phase": self.phase, "timing": self.timing, "mt": self.mt,
-            "lead": self.lead, "pieces": self.pieces})
+            "lead": self.lead, "pieces": self.pieces, "small": self.small})
     }
     fn from_json(v: &Value) -> Self {
         Self {
@@ -95,6 +99,7 @@ impl Cfg {
             mt: v["mt"].as_bool().unwrap(),
             lead: v["lead"].as_u64().unwrap_or(0) as usize,
             pieces: v["pieces"].as_array().map(|a| a.iter().map(|x| x.as_u64().unwrap() as usize).collect()).unwrap_or_default(),
+            small: v["small"].as_u64().map(|x| x as usize),
         }
     }
 }
@@ -178,6 +183,13 @@ pub const CHAIN_9600: [&str; 8] = ["FftFilter", "RationalResampler", "Quadrature
 pub fn run_cfg(c: &Cfg) -> Result<Vec<Vec<u8>>, String> {
     verif::clear_stream_specs();
     verif::set_default_stream_size(None);
+    if let Some(k) = c.small {
+        let dflt = 4_096_000usize;
+        for _ in 0..k {
+            verif::push_stream_spec(verif::StreamSpec { size: dflt, offset: 0, prefill: 0 });
+        }
+        verif::push_stream_spec(verif::StreamSpec { size: 16 * 4096, offset: 0, prefill: 0 });
+    }
     verif::set_virtual_time(!c.mt);
     let mut g = runner(c.mt);
     macro_rules! add {
@@ -351,6 +363,7 @@ fn grid(thorough: bool) -> Vec<Cfg> {
                                                 mt,
                                                 lead: 0,
                                                 pieces: vec![],
+                                                small: None,
                                             });
                                         }
                                     }
@@ -382,6 +395,7 @@ fn grid(thorough: bool) -> Vec<Cfg> {
                     mt,
                     lead: 0,
                     pieces: vec![],
+                    small: None,
                 });
             }
         }
@@ -408,6 +422,7 @@ fn grid(thorough: bool) -> Vec<Cfg> {
                         mt,
                         lead: *lead,
                         pieces: vec![],
+                        small: None,
                     });
                 }
             }
@@ -430,6 +445,30 @@ fn grid(thorough: bool) -> Vec<Cfg> {
                     mt: false,
                     lead: 0,
                     pieces,
+                    small: None,
+                });
+            }
+        }
+    }
+    // Back pressure at every point of the chain in turn: one stream small, a
+    // transmission several times its size.
+    for (baud, rate, nstreams) in [(1200u32, 48000u32, 12usize), (9600, 50000, 11)] {
+        for k in 0..nstreams {
+            for mt in if thorough { vec![false, true] } else { vec![false] } {
+                v.push(Cfg {
+                    baud,
+                    rate,
+                    family: "counting".to_string(),
+                    len: 64,
+                    frames: 3,
+                    between: 2,
+                    preamble: 20,
+                    phase: 0.0,
+                    timing: 0.25,
+                    mt,
+                    lead: 0,
+                    pieces: vec![],
+                    small: Some(k),
                 });
             }
         }
